@@ -39,7 +39,7 @@ COMPONENTS = {
 ASSUMPTIONS = ["reference = the structure theorems re-implemented by split search (ref/growth.py), agreeing with each other under inverse",
                "Fibonacci bound with F = 1,1,2,3,5,8,... (counts of the sums of 1 and 21)"]
 EXPECTED_PROBES = ["memo_hit_other_basis", "one_shot_stream", "symmetric_image", "memo_flush", "cli", "av_method",
-                   "enumeration_crosscheck", "duplicates_or_permuted", "finite_basis", "polynomial_basis", "ins_enc_only_topmost"]
+                   "enumeration_crosscheck", "duplicates_or_permuted", "finite_basis", "polynomial_basis", "ins_enc_only_topmost", "interrupted_call"]
 
 ENTRY = ["is_finite", "is_polynomial", "is_non_polynomial", "is_insertion_encodable", "rightmost", "maximum",
          "av_is_finite", "av_is_polynomial", "av_is_insertion_encodable", "cli_poly", "cli_insenc"]
@@ -98,6 +98,10 @@ def gen_case(rng, tier):
             ops.append({"op": "verdict", "basis": rng.randrange(nb), "entry": rng.choice(ENTRY),
                         "cont": rng.choice(CONTAINERS), "sym": rng.choice([0, 0, 0, 0, 1, 2, 3, 4, 5, 6, 7]),
                         "shuffle": rng.getrandbits(16)})
+            if rng.random() < 0.1:
+                # the call is interrupted after that many executed library lines; the memo
+                # tables keep whatever it had written
+                ops[-1]["interrupt"] = int(10 ** rng.uniform(0, 3.2))
         elif r < 0.92:
             ops.append({"op": "memo_flush", "which": rng.choice(["poly", "insenc", "both"])})
         else:
@@ -261,53 +265,70 @@ def execute(case):
             out.nontrivial = True
         if cont in ("dup", "reversed") or op["shuffle"] % 3:
             out.probe("duplicates_or_permuted")
-        try:
-            if entry.startswith("av_"):
-                out.probe("av_method")
-                av = pm.Av(_deliver(perms, cont if cont not in ("gen", "iter", "map", "reversed", "dictkeys", "deque") else "list", op["shuffle"]))
-                if entry == "av_is_finite":
-                    got, exp = av.is_finite(), want["fin"]
-                elif entry == "av_is_polynomial":
-                    got, exp = av.is_polynomial(), want["poly"]
-                else:
-                    got, exp = av.is_insertion_encodable(), want["ins"]
-            elif entry.startswith("cli_"):
-                out.probe("cli")
-                order = list(img)
-                import random  # pylint: disable=import-outside-toplevel
-
-                random.Random(op["shuffle"]).shuffle(order)
-                if cont == "dup":
-                    order = order + order
-                text = _basis_string(order, op["shuffle"] % 2 == 1, ["_", ", ", ":", " "][op["shuffle"] % 4])
-                buf = io.StringIO()
-                with contextlib.redirect_stdout(buf):
-                    if entry == "cli_poly":
-                        cli.has_poly_growth(argparse.Namespace(basis=text))
+        def call():
+                if entry.startswith("av_"):
+                    out.probe("av_method")
+                    av = pm.Av(_deliver(perms, cont if cont not in ("gen", "iter", "map", "reversed", "dictkeys", "deque") else "list", op["shuffle"]))
+                    if entry == "av_is_finite":
+                        got, exp = av.is_finite(), want["fin"]
+                    elif entry == "av_is_polynomial":
+                        got, exp = av.is_polynomial(), want["poly"]
                     else:
-                        cli.has_regular_insertion_encoding(argparse.Namespace(basis=text))
-                printed = buf.getvalue()
-                if entry == "cli_poly":
-                    got = ("is polynomial" in printed, "is not polynomial" in printed)
-                    exp = (want["poly"], not want["poly"])
+                        got, exp = av.is_insertion_encodable(), want["ins"]
+                elif entry.startswith("cli_"):
+                    out.probe("cli")
+                    order = list(img)
+                    import random  # pylint: disable=import-outside-toplevel
+
+                    random.Random(op["shuffle"]).shuffle(order)
+                    if cont == "dup":
+                        order = order + order
+                    text = _basis_string(order, op["shuffle"] % 2 == 1, ["_", ", ", ":", " "][op["shuffle"] % 4])
+                    buf = io.StringIO()
+                    with contextlib.redirect_stdout(buf):
+                        if entry == "cli_poly":
+                            cli.has_poly_growth(argparse.Namespace(basis=text))
+                        else:
+                            cli.has_regular_insertion_encoding(argparse.Namespace(basis=text))
+                    printed = buf.getvalue()
+                    if entry == "cli_poly":
+                        got = ("is polynomial" in printed, "is not polynomial" in printed)
+                        exp = (want["poly"], not want["poly"])
+                    else:
+                        got = ("regular topmost insertion encoding" in printed, "regular rightmost insertion encoding" in printed,
+                               "does not have a regular insertion encoding" in printed)
+                        exp = (want["top"], want["right"], not want["ins"])
                 else:
-                    got = ("regular topmost insertion encoding" in printed, "regular rightmost insertion encoding" in printed,
-                           "does not have a regular insertion encoding" in printed)
-                    exp = (want["top"], want["right"], not want["ins"])
+                    arg = _deliver(perms, cont, op["shuffle"])
+                    if entry == "is_finite":
+                        got, exp = is_finite(arg), want["fin"]
+                    elif entry == "is_polynomial":
+                        got, exp = is_polynomial(arg), want["poly"]
+                    elif entry == "is_non_polynomial":
+                        got, exp = is_non_polynomial(arg), not want["poly"]
+                    elif entry == "is_insertion_encodable":
+                        got, exp = is_insertion_encodable(arg), want["ins"]
+                    elif entry == "rightmost":
+                        got, exp = is_insertion_encodable_rightmost(arg), want["right"]
+                    else:
+                        got, exp = is_insertion_encodable_maximum(arg), want["top"]
+                return got, exp
+
+        try:
+            if op.get("interrupt"):
+                import os  # pylint: disable=import-outside-toplevel
+
+                status, res, _n = histsim.run_interruptible(call, op["interrupt"], [os.path.join(core.repo_dir(), "permuta") + os.sep])
+                if status == "interrupted":
+                    out.fault("interrupted_call")
+                    out.probe("interrupted_call")
+                    out.nontrivial = True
+                    hist.log.add("verdict", idx, entry, cont, sym, "interrupted")
+                    abst.append((entry, cont, sym, "interrupted"))
+                    continue
+                got, exp = res
             else:
-                arg = _deliver(perms, cont, op["shuffle"])
-                if entry == "is_finite":
-                    got, exp = is_finite(arg), want["fin"]
-                elif entry == "is_polynomial":
-                    got, exp = is_polynomial(arg), want["poly"]
-                elif entry == "is_non_polynomial":
-                    got, exp = is_non_polynomial(arg), not want["poly"]
-                elif entry == "is_insertion_encodable":
-                    got, exp = is_insertion_encodable(arg), want["ins"]
-                elif entry == "rightmost":
-                    got, exp = is_insertion_encodable_rightmost(arg), want["right"]
-                else:
-                    got, exp = is_insertion_encodable_maximum(arg), want["top"]
+                got, exp = call()
         except Exception as exc:  # pylint: disable=broad-except
             hist.violate("exception", {"entry": entry, "type": type(exc).__name__, "cont": cont},
                          f"{entry}({cont} of {img}): {type(exc).__name__}: {exc}")
